@@ -58,6 +58,23 @@ trait Help {
     fn req(&self, s: u64) -> u64;
     fn via_mut(&mut self, s: u64) -> u64 { self.req(s) }
     fn via_ref(&self, s: u64) -> u64 { self.req(s) }
+    fn via_pin(self: std::pin::Pin<&mut Self>, s: u64) -> u64 { self.req(s) }
+}
+
+/// an instance that has lent values is dropped while its thread unwinds from an unrelated panic: the values are
+/// released then (exactly once), not leaked
+fn run_unwind_drop(n: usize, clone: bool, out: &mut impl Write) {
+    struct Boom;
+    let orig = Unimock::new(());
+    let target = if clone { orig.clone() } else { Unimock::new(()) };
+    let r = std::panic::catch_unwind(std::panic::AssertUnwindSafe(move || {
+        let t = target;
+        for k in 0..n { let _ = t.make_ref(A(k as u64 + 1)); }
+        std::panic::resume_unwind(Box::new(Boom));
+    }));
+    let d = take_drops();
+    drop(orig);
+    writeln!(out, "unwinddrop n={} clone={} unwound={} dropped={}", n, clone, r.is_err(), d.split(',').filter(|x| !x.is_empty()).count()).unwrap();
 }
 
 /// values lent through the delegation helpers of provided methods stay alive until the mock is torn down
@@ -67,7 +84,7 @@ fn run_helper(n: usize, out: &mut impl Write) {
     let mut wrong = 0;
     for k in 0..n {
         let s = k as u64 + 1;
-        let r = if k % 3 == 2 { u.via_ref(s) } else { u.via_mut(s) };
+        let r = match k % 4 { 2 => u.via_ref(s), 3 => std::pin::Pin::new(&mut u).via_pin(s), _ => u.via_mut(s) };
         if r != s { wrong += 1; }
         let d = take_drops();
         if !d.is_empty() { early.push(format!("after-call-{}:[{}]", k + 1, d)); }
@@ -248,7 +265,10 @@ fn main() {
                 writeln!(out, "scenario {name}").unwrap();
                 let _ = take_drops();
                 let res = std::panic::catch_unwind(std::panic::AssertUnwindSafe(|| {
-                if let Some(h) = ops.iter().find(|o| o[0] == "helper") {
+                if let Some(h) = ops.iter().find(|o| o[0] == "unwinddrop") {
+                    let t: Vec<&str> = h.iter().map(|s| s.as_str()).collect();
+                    run_unwind_drop(proto::kv_num(&t, "n"), proto::kv_num(&t, "clone") == 1, &mut out);
+                } else if let Some(h) = ops.iter().find(|o| o[0] == "helper") {
                     let t: Vec<&str> = h.iter().map(|s| s.as_str()).collect();
                     run_helper(proto::kv_num(&t, "n"), &mut out);
                 } else if let Some(d) = ops.iter().find(|o| o[0] == "deep") {
